@@ -260,7 +260,9 @@ def check_step(L, sysd, prev, new, key):
         return out
     # implicit schemes
     dv1, da1 = doc_update(L, un, vn, an, u1)
-    if _rel(v1, dv1, vn, (u1 - un) / dt) > 1e-10:
+    # (the accelerations enter v_(n+1) multiplied by dt: with a negligible mass they are huge and cancel, so their magnitude is part of the scale)
+    acc_sc = [dt * an] + ([dt * da1] if da1 is not None else [])
+    if _rel(v1, dv1, vn, (u1 - un) / dt, *acc_sc) > 1e-10:
         out.append(viol("update_v", f"{lname(L)}: returned v_(n+1) violates the documented update (rel {_rel(v1, dv1, vn):.2e})", **k))
     if da1 is not None:
         if a1 is None:
